@@ -9,7 +9,7 @@
 (* Every bundle is exported ("VEC") and replayed on the real writer and reader.  *)
 EXTENDS Bundle, TLC, Json
 CONSTANTS MaxEx,
-          Tmpl        \* which templates may be appended (subset of 1..12)
+          Tmpl        \* which templates may be appended (subset of 1..14)
 VARIABLES b, done
 
 U1 == <<104,116,116,112,115,58,47,47,97,46,116,101,115,116,47>>          \* https://a.test/
@@ -30,7 +30,10 @@ Templates == <<
   Ex(U1, <<H(S_Variants, VAR2), H(S_VariantKey, <<102,114,59,120>>)>>, 0),        \* fr;x
   \* the same headers given as repeated field lines (the index is built from the comma-joined value)
   Ex(U1, <<H(S_Variants, VAR1), [n |-> S_VariantKey, vs |-> << <<101,110>>, <<102,114>> >>]>>, 1),                              \* en / fr on two lines
-  Ex(U1, <<[n |-> S_Variants, vs |-> << VAR1, <<65,59,120>> >>], H(S_VariantKey, <<101,110,59,120>>)>>, 23) >>                  \* Variants on two lines (= VAR2 up to spacing)
+  Ex(U1, <<[n |-> S_Variants, vs |-> << VAR1, <<65,59,120>> >>], H(S_VariantKey, <<101,110,59,120>>)>>, 23),                  \* Variants on two lines (= VAR2 up to spacing)
+  \* twins: the SAME response (status, header fields, body) under another URL than templates 2 and 1 - each exchange is an item
+  \* of its own in the responses array, with a location of its own
+  Ex(U2, <<>>, 24), Ex(U2, <<CT>>, 0) >>
 
 Init == /\ b \in { [ver |-> v, hasprimary |-> hp, primary |-> U1, hasmanifest |-> hm, manifest |-> U2, hassigs |-> FALSE, sigs |-> <<>>, exs |-> <<>>] :
                     v \in {"b1", "b2"}, hp \in BOOLEAN, hm \in BOOLEAN }
